@@ -50,16 +50,29 @@ int64_t CDNS::CdnsDecoder::read_negative()
                                     std::to_string(item_length)).c_str());
     }
 
-    return -1 - read_int(item_length);
+    // CBOR negative integers reach down to -2^64: a value below INT64_MIN is clamped, it must not wrap
+    // around into the non-negative range (a map key of -2^64 would be taken for key 0)
+    uint64_t value = read_int(item_length);
+    if (value > static_cast<uint64_t>(INT64_MAX))
+        return INT64_MIN;
+
+    return -1 - static_cast<int64_t>(value);
 }
 
 int64_t CDNS::CdnsDecoder::read_integer()
 {
     CborType peek = peek_type();
     switch (peek) {
-        case CborType::UNSIGNED:
-            return read_unsigned();
+        case CborType::UNSIGNED: {
+            // an unsigned value above INT64_MAX is clamped, it must not wrap around into the negative
+            // range (a map key of 2^64-1 would be taken for key -1)
+            uint64_t value = read_unsigned();
+            if (value > static_cast<uint64_t>(INT64_MAX))
+                return INT64_MAX;
+
+            return static_cast<int64_t>(value);
             break;
+        }
         case CborType::NEGATIVE:
             return read_negative();
             break;
